@@ -1863,6 +1863,14 @@ func (interp *Interpreter) cfg(root *node, sc *scope, importPath, pkgName string
 					err = c.cfgErrorf("cannot use %v (type %v) as type %v in return argument", c.ident, c.typ.cat, typ.cat)
 					return
 				}
+				if c.typ.untyped && c.rval.IsValid() {
+					// An untyped constant must be representable in the result type.
+					if rt := typ.TypeOf(); isNumber(rt) || isString(rt) || isBoolean(rt) {
+						if err = check.representable(c, rt); err != nil {
+							return
+						}
+					}
+				}
 				if c.typ.cat == nilT {
 					// nil: Set node value to zero of return type
 					c.rval = reflect.New(typ.TypeOf()).Elem()
